@@ -130,12 +130,16 @@ def _run(ix, R):
         fl = mkflow(ix, site)
         pe = param_env(fl, f, ['array', 'reverse'])
         st = [e for e in fl.of('store') if fmt(fl, e.target) == 'self.pressure_profile']
+        # by scenario: what the attribute holds when `reverse` is set / not set
+        from sa.helpers import merged_store, resolve_guards, has_guard
+        mv = merged_store(fl, st)
         vals = []
-        for e in st:
-            pol = [g.positive for g in e.guards if g.rf is not None and fl.tab.equal(g.rf, pe['reverse'])]
-            vals.append((pol[0] if pol else None, e.value))
-        ok = sorted((p is True, fl.tab.equal(v, spec(fl, 'array[::-1]' if p else 'array', pe))) for p, v in vals) == \
-            [(False, True), (True, True)] and all(p is not None for p, v in vals)
+        for scen in (True, False):
+            v = resolve_guards(fl, mv, lambda c: scen if fl.tab.equal(c, pe['reverse']) else None)
+            if has_guard(v) or fmt(fl, v) == 'UNSET':
+                raise AnalysisError('the stored pressures are not settled by `reverse`: %s' % fmt(fl, mv))
+            vals.append((scen, v))
+        ok = all(fl.tab.equal(v, spec(fl, 'array[::-1]' if p else 'array', pe)) for p, v in vals)
         R.check('1.array.order', 'ALG', site, 'layer pressures are the given array, reversed exactly when reverse is set',
                 ok, key=str([(p, fmt(fl, v)) for p, v in vals]), detail=str([(p, fmt(fl, v)) for p, v in vals]), loc=f.loc())
     site = PP + '::PressureProfile.nLevels'
